@@ -66,6 +66,20 @@ def _ttt_args(case):
     sd, od = case["selfdims"], case["otherdims"]
     if sd is None:
         return {}
+    if case.get("pres"):
+        # (round 4) mode numbers as another caller would type them; documented forms: an int or an ndarray
+        # (lists / tuples are not among them and are not requested)
+        how = case["pres"].get("dims")
+        arr = how if how in cm.DIM_DTYPES else "int64"
+        if case.get("scalar_form"):
+            kw = dict(selfdims=cm.present_dims(case, int(sd[0])))
+            if od is not None:
+                kw["otherdims"] = cm.present_dims(case, int(od[0]))
+            return kw
+        kw = dict(selfdims=np.array(sd, dtype=np.dtype(arr)))
+        if od is not None:
+            kw["otherdims"] = np.array(od, dtype=np.dtype(arr))
+        return kw
     if case.get("scalar_form"):
         kw = dict(selfdims=int(sd[0]))
         if od is not None:
@@ -92,17 +106,18 @@ def ttt_tensor(ctx, case):
               "dims-differ" if list(sd) != list(od) else "dims-same", *cm.state_label(hx),
               *["right:" + x for x in cm.state_label(hy)], *cm.object_labels(X, Y),
               "dtypes-" + hx.get("dtype", "float64") + "/" + hy.get("dtype", "float64"),
-              "values-mixed-kinds" if hx["vkind"] != hy["vkind"] else "values-same-kind")
+              "values-mixed-kinds" if hx["vkind"] != hy["vkind"] else "values-same-kind", *cm.pres_labels(case))
     ctx.nt = (len(set(hx["shape"]) | set(hy["shape"])) >= 2 and len(sd) >= 1 and
               (list(sd) != list(od) or list(sd) != sorted(sd)) and bool(np.any(expect != 0)))
+    pos, kw = cm.positional(case, _ttt_args(case), ("selfdims", "otherdims"))
     with ctx.sut("tensor.ttt"):
-        R = X.ttt(Y, **_ttt_args(case))
+        R = X.ttt(Y, *pos, **kw)
     ctx.label(cm.result_kind(R))
     got = cm.result_array(ctx, R, "ttt-result", allow=("tensor", "scalar"))
     if expect.ndim == 0:
         ctx.check(isinstance(R, cm.SCALAR_TYPES), "ttt-full-contraction-gives-scalar", type(R).__name__)
-    nterms = ref.prod(hx["shape"][a] for a in sd) + 1
-    cm.compare(ctx, got, expect, bound, nterms, cm.intvalued(hx, hy), "ttt-value",
+    nterms = cm.pres_nterms(case, ref.prod(hx["shape"][a] for a in sd) + 1)
+    cm.compare(ctx, got, expect, bound, nterms, cm.pres_exact(case, cm.intvalued(hx, hy)), "ttt-value",
                f"selfdims={case['selfdims']} otherdims={case['otherdims']}")
 
 
@@ -196,7 +211,8 @@ def innerprod_body(ctx, case):
     nterms = cm.terms(hx) * cm.terms(hy) * ref.prod(hx["shape"]) + 1
     if case.get("tight"):
         nterms = cm.tight_count(hx, hy)  # (round 3) see _c02_common.tight_count
-    cm.compare(ctx, np.array(float(r)), expect, bound, nterms, cm.intvalued(hx, hy), "innerprod-value")
+    cm.compare(ctx, np.array(float(r)), expect, bound, cm.pres_nterms(case, nterms),
+               cm.pres_exact(case, cm.intvalued(hx, hy)), "innerprod-value")
 
 
 for _k, (_q, _t) in {"tensor": (1000, 10000), "sptensor": (1000, 10000), "ktensor": (800, 8000),
@@ -274,6 +290,12 @@ def _build_factor(case):
     dt = np.dtype((case.get("fdtype") or "float64").split("@")[0])
     if fk == "ndarray":
         return cm.cast(F, case.get("fdtype")), F
+    if case.get("fhpres"):  # (round 4) the factor tensor as another caller builds it
+        if fk == "tensor":
+            return cm.build_presented(dict(holder="tensor", shape=case["fshape"], data=case["fdata"], hpres=case["fhpres"])), F
+        sc = gen.sparse_case_from_dense(F)
+        return cm.build_presented(dict(holder="sptensor", shape=case["fshape"], subs=sc["subs"], vals=sc["vals"],
+                                       hpres=case["fhpres"])), F
     if fk == "tensor":
         return cm.ST.build_dense(F.astype(dt), case.get("fstate")), F
     sc = gen.sparse_case_from_dense(F)
@@ -306,12 +328,16 @@ def scale_body(ctx, case):
               "values-mixed-kinds" if case.get("fvkind", h["vkind"]) != h["vkind"] else "values-same-kind")
     ctx.nt = len(set(shape)) >= 2 and dims != list(range(len(dims))) and len(set(case["fdata"])) > 1 and bool(
         np.any(expect != 0))
+    if case.get("pres"):  # (round 4)
+        darg = cm.present_dims(case, int(dims[0]) if case["dform"] == "int" else [int(d) for d in dims])
+        factor = cm.present_array(case, factor)
+        ctx.label(*cm.pres_labels(case))
     with ctx.sut(f"{kind}.scale({case['fkind']})"):
         R = X.scale(factor, darg)
     ctx.label(cm.result_kind(R))
     got = cm.result_array(ctx, R, "scale-result", allow=(kind,))
-    cm.compare(ctx, got, expect, bound, 2, cm.intvalued(h) and case.get("fvkind", "int") == "int", "scale-value",
-               f"dims={dims}")
+    cm.compare(ctx, got, expect, bound, cm.pres_nterms(case, 2),
+               cm.pres_exact(case, cm.intvalued(h) and case.get("fvkind", "int") == "int"), "scale-value", f"dims={dims}")
 
 
 cell("C02/scale/tensor", strategy=_scale_strategy("tensor"), quick=500, thorough=10000, shards=(2, 8))(scale_body)
@@ -401,7 +427,15 @@ def mask_body(ctx, case):
     Wd = np.zeros(tuple(wshape))
     for s in wsubs:
         Wd[tuple(s)] = 1.0
-    if case["wkind"] == "tensor":
+    if case.get("whpres"):  # (round 4) the mask as another caller builds it (stored order of a sparse W kept)
+        if case["wkind"] == "tensor":
+            W = cm.build_presented(dict(holder="tensor", shape=wshape, data=[float(x) for x in Wd.ravel(order="F")],
+                                        hpres=case["whpres"]))
+        else:
+            W = cm.build_presented(dict(holder="sptensor", shape=wshape, subs=wsubs, vals=[1.0] * len(wsubs),
+                                        hpres=case["whpres"]))
+        ctx.label("W-hpres")
+    elif case["wkind"] == "tensor":
         W = cm.ST.build_dense(Wd.astype(wdt), case.get("wstate"))
     else:
         wst = case.get("wstate")
@@ -424,7 +458,8 @@ def mask_body(ctx, case):
     ctx.require(R.dtype.kind in "fiub", "mask-dtype", str(R.dtype))
     got = np.asarray(R, dtype=float)
     ctx.require(got.size == expect.size, "mask-one-value-per-one-of-W", f"{got.shape} for {len(wsubs)} ones")
-    cm.compare(ctx, got.reshape(-1), expect, bound, cm.terms(h), cm.intvalued(h), "mask-value",
+    cm.compare(ctx, got.reshape(-1), expect, bound, cm.pres_nterms(case, cm.terms(h)), cm.pres_exact(case, cm.intvalued(h)),
+               "mask-value",
                f"wsubs={wsubs[:6]}")
 
 
